@@ -736,6 +736,25 @@ func runC17(t *testing.T, seed int64, n int, out *Out) {
 	}
 	stats["pairBoots/gov"] = p.boots
 
+	// ---- noted, outside the letter of the property: listing messages that carry no authority field and are
+	// open to anyone at this commit (recorded, never judged)
+	fresh := p.A.Accts[5]
+	for _, nm := range []sdk.Msg{
+		&aptypes.MsgAddEntry{Creator: fresh.Addr.String(), BaseDenom: "unote", Decimals: 6, Denom: "unote", DisplayName: "NOTE", CommitEnabled: true},
+		&oracletypes.MsgCreateAssetInfo{Creator: fresh.Addr.String(), Denom: "unote", Display: "NOTE", BandTicker: "NOTE", ElysTicker: "NOTE", Decimal: 6},
+	} {
+		r := p.probe(TxReq{Signer: fresh, Msgs: []sdk.Msg{nm}})
+		mod, name := c17SplitURL(sdk.MsgTypeURL(nm))
+		out.Line(J{"t": "c17.note", "id": 0, "module": mod, "msg": name, "signerKind": "fresh", "signer": fresh.Addr.String(), "code": r.Code,
+			"log": clip(r.Log, 220), "changed": r.Changed, "vb": c17ValidateBasic(nm), "body": c17MsgJSON(p.A, nm), "nontrivial": true,
+			"note": "no authority field; not governance-gated at this commit"})
+		if r.Code == 0 {
+			stats["note/"+mod+"."+name+"/accepted from a fresh account"]++
+		} else {
+			stats["note/"+mod+"."+name+"/refused"]++
+		}
+	}
+
 	// ---- part 2: owner-scoped messages, one fresh pair of worlds per message type
 	for i, sc := range c17OwnedTable {
 		sc := sc
